@@ -135,6 +135,9 @@ class SRTWriter(BaseWriter):
 
             # Eliminate excessive line breaks
             new_content = new_content.strip()
+            # A blank line inside the text would end the cue for a parser
+            new_content = '\n'.join(
+                line for line in new_content.split('\n') if line.strip())
 
             srt += f"{new_content}\n\n"
             count += 1
